@@ -244,29 +244,31 @@ def run(ctx):
 
     jobs = []
     # 1. every interleaving of the bounded models, the code as it is: the properties that hold
-    exh = ["MC_A", "MC_B", "MC_C", "MC_D", "MC_api"] + ([] if quick else ["MC_E", "MC_F"])
-    exh_jobs = [Job(BASE, "discovery/%s.cfg" % c, workers=4 if quick else 8, timeout=300 if quick else 1500, coverage=not quick)
+    exh = ["MC_A", "MC_B", "MC_C", "MC_D", "MC_api"] + ([] if quick else ["MC_E"])
+    exh_jobs = [Job(BASE, "discovery/%s.cfg" % c, workers=4 if quick else 8, timeout=900 if quick else 2400, coverage=not quick)
                 for c in exh]
     jobs += exh_jobs
-    # 2. model variants with the windows closed: the failing properties hold there (they are satisfiable, and the
-    #    variants name the atomicity that is missing)
-    jobs += [Job(BASE, "discovery/%s.cfg" % c, workers=4, timeout=600) for c in ("V_atomicPeers", "V_signedWant", "V_serialized")]
-    # 3. liveness
-    live_w = None
-    if not quick:
-        live_w = Job(BASE, "discovery/Live_waiter.cfg", must_pass=False, workers=4, timeout=900)
-        jobs += [Job(BASE, "discovery/Live.cfg", workers=4, timeout=1500),
-                 Job(BASE, "discovery/Live_waiter_atomic.cfg", workers=4, timeout=900), live_w]
-    # 4. witnesses of the properties that do not hold
-    wit_jobs = {key: Job(MC, "discovery/X_%s.cfg" % key, must_pass=False, workers=2, timeout=300) for key in FINDINGS}
-    jobs += list(wit_jobs.values())
-    # 4b. behaviours that reach the rarely taken decision branches (GoalCover stops TLC once all were reached)
-    goal_cfgs = ("Goals_limit", "Goals_one", "Goals_callers")
-    goal_jobs = {c: Job(MC, "discovery/%s.cfg" % c, must_pass=False, workers=4, timeout=600) for c in goal_cfgs}
+    # 2. coverage goals: behaviours that reach the rarely taken decision branches and, as goals x_<key>, the states in
+    #    which a property that does not hold for the code as it is fails (GoalCover stops TLC once all were reached)
+    goal_cfgs = ("Goals_limit", "Goals_two", "Goals_one", "Goals_callers")
+    goal_jobs = {c: Job(MC, "discovery/%s.cfg" % c, must_pass=False, workers=2 if quick else 4, timeout=900) for c in goal_cfgs}
     jobs += list(goal_jobs.values())
-    # 5. seeded random behaviours for the replay
-    sims = ("Sim_disc.cfg", "Sim_disc1.cfg", "Sim_api.cfg")
-    jobs += [sim_job(ctx, cfg, 12 if quick else 60, 4) for cfg in sims]
+    # 3. seeded random behaviours for the replay
+    sims = ("Sim_disc.cfg", "Sim_api.cfg") if quick else ("Sim_disc.cfg", "Sim_disc1.cfg", "Sim_api.cfg")
+    jobs += [sim_job(ctx, cfg, 20 if quick else 60, 2 if quick else 4) for cfg in sims]
+    live_w, wit_jobs = None, {}
+    if not quick:
+        # 4. model variants with the windows closed: the failing properties hold there (they are satisfiable, and the
+        #    variants name the atomicity that is missing)
+        jobs += [Job(BASE, "discovery/%s.cfg" % c, workers=4, timeout=1500)
+                 for c in ("V_atomicPeers", "V_signedWant", "V_serialized", "V_serialized2")]
+        # 5. liveness
+        live_w = Job(BASE, "discovery/Live_waiter.cfg", must_pass=False, workers=4, timeout=900)
+        jobs += [Job(BASE, "discovery/Live.cfg", workers=4, timeout=2400),
+                 Job(BASE, "discovery/Live_waiter_atomic.cfg", workers=4, timeout=900), live_w]
+        # 6. the standalone counterexamples of the properties that do not hold (the same facts as the x_ goals)
+        wit_jobs = {key: Job(MC, "discovery/X_%s.cfg" % key, must_pass=False, workers=2, timeout=900) for key in FINDINGS}
+        jobs += list(wit_jobs.values())
     tlc_many(ctx, jobs, parallel=3)
 
     if not quick:
@@ -282,17 +284,6 @@ def run(ctx):
 
     behs = []
     found = {}
-    for key, j in wit_jobs.items():
-        r = j.r
-        if r.violated and r.trace:
-            try:
-                hist = plain(r.trace[-1][1]["hist"])
-                behs.append(beh("X_%s.cfg" % key, "witness/" + key, hist, expect=key))
-                found[key] = len(hist)
-            except Exception as ex:
-                ctx.inconclusive("witness %s: cannot read TLC's counterexample: %s" % (key, ex))
-        elif r.ok:
-            ctx.note("witness %s: the model as it is satisfies the property (no counterexample)" % key)
     goals = {}
     for c, j in goal_jobs.items():
         want = set(re.findall(r'"(\w+)"', re.search(r"Wanted = \{([^}]*)\}", open(os.path.join(vlib.VERIF, "spec", "discovery", c + ".cfg")).read()).group(1)))
@@ -300,11 +291,27 @@ def run(ctx):
         for g in j.r.printed.get("GOAL", []):
             if isinstance(g, dict) and (g["g"] not in got or len(g["hist"]) < len(got[g["g"]])):
                 got[g["g"]] = g["hist"]        # several workers print the same goal: keep the shortest behaviour
-        if want - set(got):
-            ctx.inconclusive("coverage goals not reached in %s: %s" % (c, sorted(want - set(got))))
+        for g in sorted(want - set(got)):
+            if g.startswith("x_") and j.r.ok:
+                ctx.note("witness %s: the model as it is satisfies the property (state space exhausted, goal not reached)" % g[2:])
+            else:
+                ctx.inconclusive("coverage goal not reached in %s: %s" % (c, g))
         for g, hist in sorted(got.items()):
-            behs.append(beh(c + ".cfg", "goal/" + g, norm_json_hist(hist)))
+            key = g[2:] if g.startswith("x_") else ""
+            behs.append(beh(c + ".cfg", "goal/" + g, norm_json_hist(hist), expect=key))
             goals[g] = len(hist)
+            if key:
+                found[key] = len(hist)
+    for key, j in wit_jobs.items():
+        r = j.r
+        if r.violated and r.trace:
+            try:
+                hist = plain(r.trace[-1][1]["hist"])
+                behs.append(beh("X_%s.cfg" % key, "witness/" + key, hist, expect=key))
+            except Exception as ex:
+                ctx.inconclusive("witness %s: cannot read TLC's counterexample: %s" % (key, ex))
+        elif r.ok and key in found:
+            ctx.inconclusive("X_%s.cfg finds no counterexample although the goal run reached a failing state" % key)
     for cfg in sims:
         bs = sim_behaviours(ctx, cfg)
         if not bs:
@@ -325,13 +332,14 @@ def run(ctx):
     cnt = rep.get("counters") or {}
     wit = summ.get("witness") or {}
     for key in found:
-        verdict = wit.get(key, "not run")
-        if verdict == "reproduced":
+        verdicts = {b["id"]: wit.get(b["id"], "not run") for b in behs if b["expect"] == key}
+        bad = {i: v for i, v in verdicts.items() if v != "reproduced"}
+        if not bad:
             kind, what = FINDINGS[key]
-            ctx.violation("X_discovery/finding/" + key, "[%s] %s -- TLC counterexample of %d steps (spec/discovery/X_%s.cfg) forced "
-                          "on the real code" % (kind, what, found[key], key))
+            ctx.violation("X_discovery/finding/" + key, "[%s] %s -- TLC behaviour of %d steps (goal x_%s of spec/discovery/Goals_*.cfg; standalone "
+                          "counterexample: X_%s.cfg) forced on the real code" % (kind, what, found[key], key, key))
         else:
-            ctx.inconclusive("witness %s: TLC's counterexample was not reproduced on the real code (%s)" % (key, verdict))
+            ctx.inconclusive("witness %s: TLC's behaviour was not reproduced on the real code (%s)" % (key, bad))
     for s in (b for b in behs if b["expect"]):
         ctx.sample({"witness": s["expect"], "actions": [st["a"] for st in s["steps"]]}, limit=3)
     if cnt.get("behaviours_replayed", 0) < len(behs):
